@@ -15,6 +15,7 @@ EXPLANATION = (
     "value that is used as an object is unwrapped first; by-value serialisation neutralises the daemon mark by assignment."
     "Also decided: serialising a value never writes to it; the registry is per daemon; unknown ids can never reach a result reply; the auto-proxy hook is installed on both registration branches; a dead weak reference is recognised by identity with None; blob calls name the call's object id; a proxy refuses an object as exposing nothing only when it has neither methods nor attributes. "
     "Also decided (round 7): After the registry store nothing in register() can raise; the handshake's lookup treats exactly None as unknown. "
+    'Also decided (round 8): No helper of the serializers module reached from the serialisation entry points writes into the state it is handed. '
     "Not decided: identity of the object reached through a proxy, GC timing."
 )
 
@@ -307,10 +308,20 @@ def run(ctx, R, tier):
     R.rule("C16-R9", "a proxy (also the one Daemon.proxyFor builds for a returned object) rejects an object as exposing nothing only when it has neither methods nor attributes", floor=1)
     n7 = 0
     sermod = [g for g in p.functions.values() if g.module.name == "Pyro5.serializers" or g.qualname == "Pyro5.server._pyro_obj_to_auto_proxy"]
-    for g in sorted(sermod, key=lambda g: g.qualname):
+    roots7 = [g for g in sermod if g.name in ("class_to_dict", "default", "convert_obj_into_marshallable", "dumps", "dumpsCall", "_pyro_obj_to_auto_proxy") or g.name.startswith(("serpent_", "custom_"))]
+    # ... and the helpers of the serializers module they hand (parts of) the value to: the state dict a helper receives may be the object's own __dict__
+    reach7 = {g.qualname: g for g in roots7}
+    work7 = list(roots7)
+    while work7:
+        g0 = work7.pop()
+        for c0, tgs in ctx.cg.calls_of(g0):
+            for t0 in tgs:
+                if t0.kind == "fn" and t0.fn.module.name == "Pyro5.serializers" and t0.fn.qualname not in reach7 and not isinstance(t0.fn.node, ast.Lambda) \
+                        and t0.fn.name not in ("__init__", "register_type_replacement", "register_class_to_dict", "register_dict_to_class", "unregister_class_to_dict", "unregister_dict_to_class"):
+                    reach7[t0.fn.qualname] = t0.fn
+                    work7.append(t0.fn)
+    for g in sorted(reach7.values(), key=lambda g: g.qualname):
         nm = g.name
-        if not (nm in ("class_to_dict", "default", "convert_obj_into_marshallable", "dumps", "dumpsCall", "_pyro_obj_to_auto_proxy") or nm.startswith(("serpent_", "custom_"))):
-            continue
         subjects = set(g.params) - {g.self_name, "cls", "self"}
         bad = None
         for st, t, k in stores_in(g.node):
